@@ -20,7 +20,8 @@ theorem gen_assumptions_path :
     Gen.WasiPath.terminator = 0 ∧ Gen.WasiPath.rejectsNul = true ∧ Gen.WasiPath.nulCheckAfterLength = true ∧
     Gen.WasiPath.resolvePathMemcpys =
       ["result, path, pathLength", "result, directory, totalLength", "result + totalLength, path, pathLength"] ∧
-    Gen.WasiPath.pathCalls.map (fun c => c.2.2) = [1, 1, 1, 2, 1, 1, 1] := by
+    Gen.WasiPath.pathCalls.map (fun c => c.2.2) = [1, 1, 1, 2, 1, 1, 1] ∧
+    Gen.WasiPath.renameResolvesAgainst = ("old", "new") := by
   decide
 
 /-- **resolvePath_spec.**  For a descriptor path `dir` (non-empty, NUL-free, NUL-terminated in
